@@ -810,8 +810,15 @@ impl Fiber {
       .expect("Unable to write to stderr");
     }
 
-    let message = error[0].to_obj().to_str();
-    writeln!(log, "{}: {}", &*error.class().name(), &*message).expect("Unable to write to stderr");
+    // the message field is writable from laythe code and may hold anything
+    let message = error[0];
+    if message.is_obj_kind(ObjectKind::String) {
+      let message = message.to_obj().to_str();
+      writeln!(log, "{}: {}", &*error.class().name(), &*message)
+    } else {
+      writeln!(log, "{}: {}", &*error.class().name(), message)
+    }
+    .expect("Unable to write to stderr");
   }
 
   /// Get a value on the stack
